@@ -538,6 +538,8 @@ def Linked (s : State K) (c : Nat) : Prop :=
       lens[k]? = some om.view.len ∧
       om.view = ⟨oc.view.buf, oc.view.off + (lens.take k).sum, om.view.len⟩
 
+variable [DCast K]
+
 theorem eff_linkColl {s s' : State K} (hwf : WF s) {ms : List Nat} (hnd : ms.Nodup) {g : Nat}
     {src : Option (View × DType)} {dt : Option DType} (h : linkFrom s ms g src dt = .ok s') :
     Eff s s' (fun _ _ => False) (fun i => i ∈ ms) False ∧
@@ -562,9 +564,9 @@ theorem eff_linkColl {s s' : State K} (hwf : WF s) {ms : List Nat} (hnd : ms.Nod
   · cases h
   rename_i hnest
   -- abbreviations
-  generalize hcells : collCells s os src = cells at h
-  generalize hdt : collDType s os src dt = dtOut at h
   simp only at h
+  generalize hdt : collDType s os src dt = dtOut at h
+  generalize hcells : collCells s os src dtOut = cells at h
   split at h
   · cases h
   rename_i hF5
@@ -787,16 +789,16 @@ theorem eff_mkColl {s s' : State K} (hwf : WF s) {hs : List Nat} {cp : Bool} {dt
 theorem eff_copyAny {s s' : State K} (hwf : WF s) {o : Obj} {dt : Option DType}
     (h : copyAny s o dt = .ok s') :
     Eff s s' (fun _ _ => False) (fun _ => False) False ∧ ResultOK s s' ∧
-      (o.cls ≠ .coll → ∃ d, s' = copyField s o d) := by
+      (o.cls ≠ .coll → s' = copyField s o dt) := by
   unfold copyAny at h
-  have field : ∀ d, s' = copyField s o d → o.cls ≠ .coll →
+  have field : s' = copyField s o dt → o.cls ≠ .coll →
       Eff s s' (fun _ _ => False) (fun _ => False) False ∧ ResultOK s s' ∧
-        (o.cls ≠ .coll → ∃ d, s' = copyField s o d) := by
-    intro d hs' hc
+        (o.cls ≠ .coll → s' = copyField s o dt) := by
+    intro hs' hc
     subst hs'
-    refine ⟨eff_allocObj hwf _ _ _, ⟨by simp [copyField, allocObj_length], ?_⟩, fun _ => ⟨d, rfl⟩⟩
+    refine ⟨eff_allocObj hwf _ _ _, ⟨by simp [copyField, allocObj_length], ?_⟩, fun _ => rfl⟩
     intro oc hoc hcls
-    have : lastId (copyField s o d) = s.objs.length := by
+    have : lastId (copyField s o dt) = s.objs.length := by
       simp [lastId, copyField, allocObj_length]
     rw [this, copyField, allocObj_new] at hoc
     cases hoc
@@ -810,7 +812,7 @@ theorem eff_copyAny {s s' : State K} (hwf : WF s) {o : Obj} {dt : Option DType}
       exact ⟨e, r, fun hc => absurd (by assumption) hc⟩
   · rename_i h1 h2
     cases h
-    exact field _ rfl (fun hc => h2 hc)
+    exact field rfl (fun hc => h2 hc)
 
 /-- writing through the (fresh) result of a construction does not touch old memory -/
 theorem eff_write_result {s s1 : State K} (hwf : WF s)
@@ -1400,7 +1402,8 @@ theorem newOK_copyAny {G : List Grid} {s s' : State K} (hi : Inv G s) {o : Obj} 
     refine newOK_allocObj s _ _ _ rfl ?_
     rcases hi.shaped m o ho with hr | ⟨g, h1, h2⟩
     · exact Or.inl hr
-    · exact Or.inr ⟨g, h1, by rw [Store.length_readView _ _ (hi.wf m o ho).2]; exact h2⟩
+    · exact Or.inr ⟨g, h1, by
+        rw [length_castCells, Store.length_readView _ _ (hi.wf m o ho).2]; exact h2⟩
 
 theorem newOK_copyThenWrite {G : List Grid} {s s' : State K} (hi : Inv G s) {src : Obj} {m : Nat}
     (ho : s.objs[m]? = some src) {dt : Option DType}
@@ -1523,7 +1526,7 @@ theorem newOK_step (G : List Grid) {s s' : State K} (hi : Inv G s) {op : Op K}
       rcases hi.shaped hd o (getObj_ok ho) with hr | ⟨g, h1, h2⟩
       · exact Or.inl hr
       · exact Or.inr ⟨g, h1, by
-          rw [Store.length_readView _ _ (hi.wf hd o (getObj_ok ho)).2]; exact h2⟩
+          rw [length_castCells, Store.length_readView _ _ (hi.wf hd o (getObj_ok ho)).2]; exact h2⟩
   | neg hd =>
     simp only [step, negate] at h
     split at h
